@@ -31,6 +31,8 @@ def run(ctx):
         ["the image is produced by the harness (go/harness/fsck.go): a read-only walk of inode table, indirect blocks and directory blocks through obj.Log.Load, decoded by inode.Decode and dir.decodeDirEnt",
          "the layout functions are the ones regenerated from super/super.go; the set of blocks marked by formatting is a closed form proved equal to the format model of C15 (metaBlock_is_format_model)",
          "in images of concurrent histories every directory counts as possibly moved once a cross-directory RENAME succeeded (loosens only the '..' clause there)"],
-        pending=["the inode table (allocation bitmaps and on-disk inodes) on the tree view of M7, and the bridge from M7 / M7d / M7e states to fsck images (proved so far: files bmap_ok, shrinkTo_ok, InoOK; "
-                 "directory blocks directory_slot_write_is_putSlot, directory_blocks_refine_the_slot_list; bytes block_level_file_refines_the_content_log)"],
+        pending=["the bridge from states of the block-level models (M7 pointer tree, M7d bytes / many files, M7e directory slots, M7i inode table) to the IMAGES the checker reads: "
+                 "each layer is proved on its own representation (bmap_ok, shrinkTo_ok, InoOK; block_level_file_refines_the_content_log; directory_blocks_refine_the_slot_list; "
+                 "writing_one_inode_changes_no_other, inode_slots_do_not_overlap), the composition into one disk image is not"],
+
         partial=["for all histories / crash points: sampled, not proved"])
